@@ -412,7 +412,17 @@ func (w *World) Gov(a Act) Outcome {
 	var content interface{}
 	switch a.S("p") {
 	case "ColdStorage":
-		content = mhubtypes.NewColdStorageTransferProposal(mhubtypes.ChainID(a.S("chain")), sdk.Coins{sdk.Coin{Denom: a.S("denom"), Amount: a.Int("amt")}})
+		var coins sdk.Coins
+		if a.Has("coins") {
+			for _, it := range a.L("coins") {
+				p := it.([]interface{})
+				amt, _ := sdk.NewIntFromString(asStr(p[1]))
+				coins = append(coins, sdk.Coin{Denom: asStr(p[0]), Amount: amt})
+			}
+		} else {
+			coins = sdk.Coins{sdk.Coin{Denom: a.S("denom"), Amount: a.Int("amt")}}
+		}
+		content = mhubtypes.NewColdStorageTransferProposal(mhubtypes.ChainID(a.S("chain")), coins)
 	case "TokenInfos":
 		var infos []*mhubtypes.TokenInfo
 		for _, it := range a.L("tokens") {
@@ -504,6 +514,37 @@ func (w *World) exec(a Act) Outcome {
 			}
 		}
 		return Outcome{Out: "ok"}
+	case "Tx": // several messages of one signer in one transaction (all or nothing)
+		by := a.S("by")
+		var msgs []sdk.Msg
+		for _, it := range a.L("msgs") {
+			sub := jsonAct(J(it.(map[string]interface{})))
+			signer, ms, err := w.BuildMsgs(sub)
+			if err != nil {
+				return Outcome{Out: "err", Log: "build: " + err.Error()}
+			}
+			if signer != by {
+				return Outcome{Out: "err", Log: "build: messages of one transaction must share the signer"}
+			}
+			msgs = append(msgs, ms...)
+		}
+		bz, err := w.SignTx(w.N.Acct(by), 0, msgs...)
+		if err != nil {
+			return Outcome{Out: "err", Log: "sign: " + err.Error()}
+		}
+		o, _ := w.DeliverBytes(bz)
+		if o.Hash != "" {
+			name := sprintf("h%d", w.stepNo)
+			if a.Has("i") {
+				name = "h" + a.S("i")
+			}
+			w.N.RegisterTxHash(o.Hash, name)
+			o.Hash = name
+		}
+		if o.Out == "err" {
+			o.Log = shortLog(o.Log)
+		}
+		return o
 	case "ExtDeposit", "ExtExec", "ExtMine", "ExtSSExec", "Note":
 		// actions of the modelled external world: nothing happens on the hub
 		return Outcome{Out: "ok"}
